@@ -412,7 +412,7 @@ static void do_yield(int kind) {  // 0 polite (spinning), 1 idle (would block), 
     if (!forced && ++t->spin_rounds > 8) {
       int others_idle = 1;
       for (int k = 0; k < nth; k++)
-        if (k != me && T[k].alive && !(T[k].yielded)) others_idle = 0;
+        if (k != me && T[k].alive && !(T[k].yielded || T[k].joining)) others_idle = 0;
       if (others_idle) {
         // hand over to another spinner once, else declare quiescence
         for (int k = 0; k < nth; k++)
@@ -592,6 +592,8 @@ void fmc_wait_threads(void) {
     }
     int chosen = __builtin_ctz(mask);
     if (__builtin_popcount(mask) > 1) chosen = choose(K_YIELD, mask, chosen, 0, 0);
+    t->yielded = 1;  // (do_switch clears it for the thread that is switched to)
+    t->idle = 1;
     do_switch(chosen);
   }
   t->joining = 0;
